@@ -104,6 +104,12 @@ def run(run, replay=None):
     cases = []
     for n in range(1500 if quick else 40000):
         d = build(rng)
+        if rng.random() < 0.3:
+            try:
+                from pydiffx.dom import DiffX
+                d = DiffX.from_bytes(d.to_bytes())       # option values are now strings created at run time
+            except Exception:       # noqa: trees that do not serialise stay as built
+                pass
         tree = domdriver.stats_tree(d, cat)
         exc = ''
         after = after2 = []
